@@ -76,6 +76,20 @@ for _n in range(0, 6):
 
 
 
+# ---- removing ranges of time points (C16): exactly the entries in the stated range go, the others stay with their values
+for _n in range(0, 4):
+    for _op, _gone in (("remove_before", "old_t[%d] < t_remove"), ("remove_after", "old_t[%d] > t_remove"), ("remove_between", "(t_remove[0] < old_t[%d] and old_t[%d] < t_remove[1])")):
+        _g = lambda j: (_gone % ((j,) * _gone.count("%d")))
+        _present = lambda j: "any(self.t[i] == old_t[%d] and self.vals[i] == old_v[%d] for i in range(len(self.t)))" % (j, j)
+        _ens = [("C16.invariant_sorted_and_aligned", _inv),
+                ("C16.entries_in_the_range_are_removed_and_the_others_kept", " and ".join("((%s) != (%s))" % (_g(j), _present(j)) for j in range(_n)) or "True"),
+                ("C16.no_other_entries_appear", "all(any(self.t[i] == old_t[j] for j in range(%d)) for i in range(len(self.t)))" % _n),
+                ("C16.assumption_untouched", "self.assumption == old_assumption")]
+        CONTRACTS["utils:TimeSeries.%s#n%d" % (_op, _n)] = dict(
+            schema=schema, make_env=_env(_n), params={"t_remove": ("real" if _op != "remove_between" else "arr1:2")},
+            ensures=_ens, defined_props=["C16"], raises={}, raises_props=["C16"], tiers=(["quick", "thorough"] if _n <= 2 else ["thorough"]))
+
+
 # ---- sampling (C17): a copy is returned, the source is untouched; without uncertainty the copy equals the source, with uncertainty
 # every value (and the assumption) is shifted by the same sigma x draw
 def _env_sample(n, has_sigma):
@@ -144,6 +158,26 @@ def _replay(model, contract):
             want = vs[i] + (vs[i + 1] - vs[i]) * (t2 - ts[i]) / (ts[i + 1] - ts[i])
         ok = len(got) == 1 and abs(float(got[0]) - want) <= 1e-9 * max(1.0, abs(want))
         return dict(verdict="holds" if ok else "violates", detail="interpolate(%r) returned %r, the documented rule gives %r" % (t2, list(map(float, got)), want), prestate=pre)
+    if contract["op"] == "remove_range":
+        fn = contract["fn"]
+        if fn == "remove_between":
+            tr = [val("t_remove[0]"), val("t_remove[1]")]
+            gone = lambda x: tr[0] < x < tr[1]
+        else:
+            tr = val("t_remove")
+            gone = (lambda x: x < tr) if fn == "remove_before" else (lambda x: x > tr)
+        pre = dict(t=ts, vals=vs, op=fn, t_remove=tr)
+        if any(x >= y for x, y in zip(ts, ts[1:])):
+            return dict(verdict="requires-fail", detail="model times not strictly increasing", prestate=pre)
+        s = au.TimeSeries(t=list(ts), vals=list(vs), assumption=1.0)
+        try:
+            getattr(s, fn)(tr)
+        except Exception as e:
+            return dict(verdict="violates", detail="real code raised %s: %s" % (type(e).__name__, e), prestate=pre)
+        want = {a: b for a, b in zip(ts, vs) if not gone(a)}
+        got = dict(zip(s.t, s.vals))
+        ok = got == want and list(s.t) == sorted(s.t) and len(s.t) == len(s.vals) and s.assumption == 1.0
+        return dict(verdict="holds" if ok else "violates", detail="series after %s(%r): t=%r vals=%r; expected entries %r" % (fn, tr, list(s.t), list(s.vals), want), prestate=pre)
     if contract["op"] == "sample":
         a, draw = val("assumption"), val("draw")
         sigma = val("sigma") if contract.get("has_sigma") else None
@@ -199,4 +233,5 @@ def _replay(model, contract):
 for _k, _c in CONTRACTS.items():
     _c["replay_hook"] = _replay
     _c["n"] = int(_k.split("#n")[1].split("_")[0])
-    _c["op"] = "insert" if ".insert#" in _k else ("remove" if ".remove#" in _k else ("sample" if ".sample#" in _k else "interpolate"))
+    _c["fn"] = _k.split(".")[-1].split("#")[0]
+    _c["op"] = "insert" if ".insert#" in _k else ("remove" if ".remove#" in _k else ("sample" if ".sample#" in _k else ("remove_range" if ".remove_" in _k else "interpolate")))
